@@ -461,7 +461,7 @@ struct ChainNode {
 
 void run_extra(Ctx &c) {
 	auto &t = c.t;
-	unsigned which = t.pick(4);
+	unsigned which = t.pick(5);
 	int a = 1 + (int)t.pick(6), b = 1 + (int)t.pick(100), d = (int)t.pick(100);
 	c.op("extra battery %u with (%d,%d,%d)", which, a, b, d);
 	c.tagf("extra-%u", which);
@@ -513,7 +513,20 @@ void run_extra(Ctx &c) {
 		VCHECK(c, "C17", (bool)*cur && cur->value().t.get() == d && !cur->value().next, "second step of the chain");
 		c.destroy(cur);
 		break; }
-	default: {  // optional / variant of a type that owns heap memory (std::string stands in for any resource owner)
+	case 4: {   // head = std::move((*head)->next): the source optional is owned by the destination's current value
+		struct LNode; using Link = frg::optional<std::unique_ptr<LNode>>;
+		struct LNode { Tracked t; Link next; LNode(int v) : t(v) {} };
+		Link *head = c.make<Link>();
+		for(int i = 0; i < 3; i++) { auto n = std::make_unique<LNode>(a + i); n->next = std::move(*head); *head = std::move(n); }
+		for(int i = 2; i >= 0; i--) {
+			VCHECK(c, "C17", (bool)*head && (**head)->t.get() == a + i, "list head holds %d, expected %d", *head ? (**head)->t.v : -1, a + i);
+			Link &src = (**head)->next;
+			*head = std::move(src);
+		}
+		VCHECK(c, "C17", !*head, "the list is not empty after popping every node");
+		c.destroy(head);
+		break; }
+	case 3: {   // optional / variant of a type that owns heap memory (std::string stands in for any resource owner)
 		frg::optional<std::string> *o = c.make<frg::optional<std::string>>(std::string((size_t)a * 20, 'q'));
 		frg::optional<std::string> *o2 = c.make<frg::optional<std::string>>(*o);
 		*o = frg::null_opt; *o = *o2; *o2 = std::move(*o);
@@ -575,6 +588,6 @@ void verif_enum(Enum &e) {
 	for(uint32_t w = 0; w < 6; w++) { if(!e.run({1, 9, 1, 2, 3, 4, 5, 6, w})) return; n++; }
 	e.scope("tuple batteries", n);
 	n = 0;
-	for(uint32_t w = 0; w < 4; w++) { if(!e.run({1, 10, w, 2, 7, 9})) return; n++; }
+	for(uint32_t w = 0; w < 5; w++) { if(!e.run({1, 10, w, 2, 7, 9})) return; n++; }
 	e.scope("extra value-holder batteries", n);
 }
